@@ -1205,7 +1205,7 @@ class C17(Prop):
                 if not diverged and a != c:
                     out.append(F('prop', 'partial tree returned a different result than the complete tree: op %d %s' % (i, show(op)), a, c))
                     break
-            elif a not in ('err:nav', 'err:index'):
+            elif a not in ('err:nav', 'err:index') and not diverged:
                 if not (c or '').startswith('err'):
                     out.append(F('prop', 'access to a partial tree failed with another error: op %d %s' % (i, show(op)), a, 'err:nav|err:index'))
                     break
